@@ -65,6 +65,18 @@ def _fn_jun():
     return {"coq": text, "translated": done, "refused": failed}
 
 
+@unit("fn_sir")
+def _fn_sir():
+    import os
+
+    sys.path.insert(0, os.path.dirname(os.path.abspath(__file__)))
+    import translate
+    import netconan.sensitive_item_removal as pm
+
+    text, done, failed = translate.translate_module(pm.__file__, pm, wanted=["_check_sensitive_item_format"])
+    return {"coq": text, "translated": done, "refused": failed}
+
+
 @unit("cli_consts")
 def _cli_consts():
     from netconan import netconan as nn
@@ -148,29 +160,7 @@ def _rx():
             items.append("(%s, %s, %s)" % (nm, "None" if num is None else "Some %d%%nat" % num, "None" if pidx is None else "Some %d%%nat" % pidx))
         gl.append("[" + "; ".join(items) + "]")
     out.append("Definition PWD_REGEXES : list (list (re * option nat * option nat)) := [%s]." % ";\n  ".join(gl))
-    # _check_sensitive_item_format: a default, then an ordered list of `if re.match(<literal>, val): item_format = <enum member>`
-    fn = ast.parse(inspect.getsource(sir._check_sensitive_item_format)).body[0]
-    body = [st for st in fn.body if not (isinstance(st, ast.Expr) and isinstance(st.value, ast.Constant))]
-    first, ifs, last = body[0], body[1:-1], body[-1]
-    def member(node):
-        assert isinstance(node, ast.Attribute) and isinstance(node.value, ast.Name) and node.value.id == "_sensitive_item_formats"
-        return sir._sensitive_item_formats[node.attr].value
-    assert isinstance(first, ast.Assign) and first.targets[0].id == "item_format"
-    default = member(first.value)
-    assert isinstance(last, ast.Return) and last.value.id == "item_format"
-    checks = []
-    for k, st in enumerate(ifs):
-        assert isinstance(st, ast.If) and not st.orelse and len(st.body) == 1
-        call = st.test
-        assert isinstance(call, ast.Call) and call.func.value.id == "re" and call.func.attr == "match" and call.args[1].id == "val" and len(call.args) == 2
-        pat = call.args[0].value
-        asg = st.body[0]
-        assert isinstance(asg, ast.Assign) and asg.targets[0].id == "item_format"
-        nm = "FORMAT_RX_%d" % k
-        one(nm, pat, 0)
-        checks.append("(%s, %d%%N)" % (nm, member(asg.value)))
-    out.append("Definition FORMAT_DEFAULT : N := %d%%N." % default)
-    out.append("Definition FORMAT_CHECKS : list (re * N) := [%s]." % "; ".join(checks))
+    # _check_sensitive_item_format itself is translated by the function translator (unit fn_sir); only the enum values are data
     out.append("Definition FORMAT_ENUM : list (N * N) := [%s]. (* index in (cisco_type7, numeric, hexadecimal, md5, text, sha512, juniper_type9) -> value *)" % "; ".join(
         "(%d%%N, %d%%N)" % (i, sir._sensitive_item_formats[n].value) for i, n in enumerate(["cisco_type7", "numeric", "hexadecimal", "md5", "text", "sha512", "juniper_type9"])))
     # run-time built patterns on sample lists: the model's own builders are checked against these
